@@ -32,11 +32,11 @@ Theorem protocol_check_sound : forall t, protocol_check t = true <-> crash_safe 
 Proof. exact protocol_check_sound_lemma. Qed.
 Print Assumptions protocol_check_sound.
 
-(* resize_fs: superblock field updates, flag set and flushed, any body that never clears it,
+(* resize_fs: superblock field updates and writes beyond the old end, flag set and flushed, any body that never clears it,
    flush, then only superblock writes: at every crash point the superblock carries the error
    flag unless nothing or all of the operation is on disk *)
 Theorem error_flag_protocol : forall pre body post,
-  forallb is_sb pre = true -> forallb no_clear body = true -> forallb not_other post = true ->
+  forallb harmless pre = true -> forallb no_clear body = true -> forallb not_other post = true ->
   crash_safe (resize_trace pre body post).
 Proof. exact resize_protocol_safe_lemma. Qed.
 Print Assumptions error_flag_protocol.
@@ -46,7 +46,7 @@ Print Assumptions error_flag_protocol.
 Example geom_example :
   resize_geom (mkSb true false 0 0 false 0 32 1 95 1 8192 1024) 2048 256 24577 = ROk 24577 3 1.
 Proof. vm_compute. reflexivity. Qed.
-Example protocol_example : protocol_check (resize_trace [WSb false] [WOther; Sync; WSb true; WOther] [WSb true; WSb false; Sync]) = true
-                           /\ protocol_check [WSb true; WOther; Sync; WSb false] = false
-                           /\ protocol_check [WSb true; WOther; WSb false; Sync] = false.
+Example protocol_example : protocol_check (resize_trace [WOther false; WSb false] [WOther true; Sync; WSb true; WOther false] [WSb true; WSb false; Sync]) = true
+                           /\ protocol_check [WSb true; WOther true; Sync; WSb false] = false
+                           /\ protocol_check [WSb true; Sync; WOther true; WOther false; WSb false; Sync] = false.
 Proof. vm_compute. repeat split; reflexivity. Qed.
